@@ -584,7 +584,9 @@ def evaluate_sizes(nodes, warn=null_warn):
             padding = (alignment - byte_size % alignment) % alignment
             byte_size += padding
             if any(is_member_dynamic(m) for m in node_.members):
-                prev_member.padding = (node_.members[-1].alignment < alignment) and (-alignment) or 0
+                last = node_.members[-1]
+                unaligned_end = (last.alignment < alignment) or (last.byte_size % alignment)
+                prev_member.padding = unaligned_end and (-alignment) or 0
             else:
                 prev_member.padding = padding
         node_.byte_size, node_.alignment = byte_size, alignment
